@@ -40,7 +40,7 @@ int *ren_position(char *s)
 	if (n <= xlim && (xorder == 2 || (xorder == 1 && n < strlen(s))))
 		return ren_position_reorder(s);
 	pos = malloc((n + 1) * sizeof(pos[0]));
-	for (i = 0; i < n; i++, s += uc_len(s)) {
+	for (i = 0; i < n; i++, s = uc_next(s)) {
 		pos[i] = cpos;
 		cpos += ren_cwid(s, cpos);
 	}
